@@ -116,7 +116,7 @@ def run(chk, tier):
     for cfgname in configs:
         prog = model.Program(fx[cfgname], cfgname)
         prog.edges()
-        K = K_BASE + [prog.arena_drop_walker()]
+        K = K_BASE + prog.arena_drop_walkers()
         for a in K + [K_DEALLOC, CTX_DROP, BUILDER_DROP]:
             chk.anchor(a, a in prog.seed_n, "(config %s)" % cfgname)
         eps = entry_points(prog)
